@@ -1,6 +1,6 @@
 """C04 — completion of a tight program's theory has exactly its stable models."""
 from ..facts import AnalysisGap
-from .. import comp, hq, leaves, sym
+from .. import collect, comp, hq, leaves, sym
 from . import c11
 from .c01 import C
 
@@ -353,4 +353,18 @@ def rule_tightness(ctx):
             ctx.obls.append(o)
 
 
-RULES = [rule_completion, rule_split, rule_tightness]
+def rule_variable_leaves(ctx):
+    """V = variables of the head atom and U_i = free(F_i) - V compare variables by name and sort: each occurrence must be collected under its sort"""
+    collect.check_variable_leaves(ctx, "COLLECT", ctx.facts)
+
+
+def rule_globals_shared(ctx):
+    """completion quantifies the head variables V universally and everything else of a body existentially: that is the completed definition only
+    if the head variables tau* chose occur nowhere else in the program (C01's obligations on choose_fresh_global_variables)"""
+    from . import c01
+    sub = type(ctx)(ctx.prop, ctx.tier, ctx.facts)
+    c01.rule_globals(sub)
+    ctx.obls.extend(sub.obls)
+
+
+RULES = [rule_completion, rule_split, rule_tightness, rule_variable_leaves, rule_globals_shared]
